@@ -60,6 +60,7 @@ func TestC06(t *testing.T) {
 	mon.Register(r, "crash", c06Crash)
 	mon.Register(r, "faults", c06Faults)
 	mon.Register(r, "stopnow", c06StopNow)
+	mon.Register(r, "delfaults", c06DelFaults)
 	rng := r.Rand("gen")
 	cfgs := []Cfg{}
 	for _, fl := range []string{"plain", "ctx"} {
@@ -93,6 +94,26 @@ func TestC06(t *testing.T) {
 				p := base
 				p.K, p.N = k, n
 				mon.Emit(r, "faults", p, "faults")
+			}
+		}
+	}
+	// transient faults inside a DeleteRange: every placement of N consecutive failing write attempts counted from
+	// the start of the deletion; afterwards (faults over) optionally more appends, a clean Stop, and the reopen oracle
+	for _, cfg := range cfgs {
+		for _, side := range []string{"tail", "head", "all"} {
+			for _, after := range []int{0, 2} {
+				for n := 1; n <= 2; n++ {
+					if n == 2 && r.Quick() && after == 0 {
+						continue
+					}
+					for k := 0; k < 14; k++ {
+						p := c06P{Cfg: cfg, Chain: 16, K: k, N: n, Ops: []c04Op{{Op: "append", Hs: []uint64{1, 2, 3, 4, 5, 6}}, {Op: "append", Hs: []uint64{7, 8, 9, 10}}, {Op: "sync"}, {Op: "delete", Side: side, K: 4}}}
+						if after > 0 {
+							p.Ops = append(p.Ops, c04Op{Op: "append-next", K: after})
+						}
+						mon.Emit(r, "delfaults", p, "delfaults")
+					}
+				}
 			}
 		}
 	}
@@ -478,6 +499,97 @@ func c06Faults(c *mon.Case, p c06P) {
 		}
 		c06Reopen(c, p.Cfg, img, p.Chain, "transient-faults/reopen", map[string]any{"fired": fired})
 	})
+}
+
+// c06DelFaults: the last "delete" op of the history runs under injected write failures.
+func c06DelFaults(c *mon.Case, p c06P) {
+	c.Bubble(func() {
+		e := &env{c: c, d: memds.New(), cfg: p.Cfg, chain: newChain(p.Chain + 4), P: map[uint64]bool{}}
+		if err := e.open(); err != nil {
+			c.Trivial()
+			c.Class("config-not-accepted")
+			return
+		}
+		if err := e.start(); err != nil {
+			c.Violation("start-fails-on-empty", fmt.Sprint(err), nil)
+			return
+		}
+		di := -1
+		for i, op := range p.Ops {
+			if op.Op == "delete" {
+				di = i
+			}
+		}
+		if di < 0 {
+			c.T.Fatalf("delfaults without delete op")
+		}
+		if _, ok := e.runHistory(p.Ops[:di], true); !ok {
+			return
+		}
+		_ = e.sync()
+		fired := 0
+		site := "not-fired"
+		base := e.d.Attempts()
+		e.d.SetFailWrite(func(n int, u memds.Unit) bool {
+			if n >= base+p.K && n < base+p.K+p.N {
+				if fired == 0 {
+					site = unitSite(u)
+				}
+				fired++
+				return true
+			}
+			return false
+		})
+		_, ok := e.runHistory(p.Ops[di:di+1], false)
+		e.d.SetFailWrite(nil)
+		side := p.Ops[di].Side
+		c.Count("faults_fired", fired)
+		if !ok {
+			return
+		}
+		kinds, ok := e.runHistory(p.Ops[di+1:], false)
+		if !ok {
+			return
+		}
+		// NOTE: equality of Head/Tail across this clean Stop is deliberately not demanded here: after a DeleteRange
+		// that returned an error the in-memory pointers describe its partial progress (C08 judges that state), and
+		// a restart legitimately re-derives them from what is stored. The reopen oracle below is what C06 states
+		// for transient write failures.
+		if err := e.stop(); err != nil {
+			c.Violation("stop-fails", fmt.Sprint(err), nil)
+			return
+		}
+		c.Class("delete-faults side=%s flavour=%s wb=%d n=%d site=%s then=%s", side, p.Cfg.Flavour, p.Cfg.WB, p.N, site, strings.Join(kinds, ","))
+		if fired == 0 {
+			c.Trivial()
+		}
+		img := e.d.ImageAt(e.d.LogLen())
+		c06Reopen(c, p.Cfg, img, p.Chain, "delete-faults@"+site+"/"+side+"/reopen", map[string]any{"fired": fired, "k": p.K})
+	})
+}
+
+// unitSite names the kind of write unit a fault hit (same vocabulary as C08's partial deletions).
+func unitSite(u memds.Unit) string {
+	ptr := ""
+	for _, op := range u.Ops {
+		switch op.Key {
+		case "/headers/tail":
+			ptr = "tail-pointer"
+		case "/headers/head":
+			ptr = "head-pointer"
+		}
+	}
+	switch {
+	case len(u.Ops) == 1 && ptr != "":
+		return ptr + "-write"
+	case len(u.Ops) == 1 && u.Ops[0].Del:
+		return "header-key-delete"
+	case len(u.Ops) == 1:
+		return "header-key-put"
+	case ptr != "":
+		return "batch-commit-with-" + ptr
+	}
+	return "batch-commit"
 }
 
 func c06StopNow(c *mon.Case, p c06P) {
